@@ -63,6 +63,8 @@ struct ThreadGauges {
     live: Vec<(SocketAddr, u16)>,
     created_total: usize,
     dropped_total: usize,
+    // (when, created?, remote, conn_id_send); time is tokio's clock (virtual under a paused runtime)
+    lifecycle: Vec<(std::time::Instant, bool, SocketAddr, u16)>,
 }
 
 thread_local! {
@@ -87,6 +89,8 @@ pub(crate) fn vsock_created(remote: SocketAddr, conn_id_send: u16) {
         let mut t = t.borrow_mut();
         t.live.push((remote, conn_id_send));
         t.created_total += 1;
+        t.lifecycle
+            .push((tokio::time::Instant::now().into_std(), true, remote, conn_id_send));
     })
 }
 
@@ -98,6 +102,8 @@ pub(crate) fn vsock_dropped(remote: SocketAddr, conn_id_send: u16) {
             t.live.swap_remove(i);
         }
         t.dropped_total += 1;
+        t.lifecycle
+            .push((tokio::time::Instant::now().into_std(), false, remote, conn_id_send));
     });
 }
 
@@ -130,4 +136,9 @@ pub fn vsock_totals() -> (usize, usize) {
         let t = t.borrow();
         (t.created_total, t.dropped_total)
     })
+}
+
+/// Creation (true) / destruction (false) of connection objects on this thread, with tokio-clock times.
+pub fn vsock_lifecycle() -> Vec<(std::time::Instant, bool, SocketAddr, u16)> {
+    GAUGES.with(|t| t.borrow().lifecycle.clone())
 }
